@@ -21,7 +21,7 @@ META = dict(
           "repository's own code is covered.",
     trusted="the csv C module's quoting, repr/float text round-trip of floats, textgrid / pympi / pyannote.load_rttm parsers: C or third-party code the engine "
             "cannot encode; they are replaced by channels with the round-trip contract and are OUTSIDE the claim (delimiters, quotes, unicode are therefore not exercised)",
-    bounds=dict(quick="<= 3 CSV rows incl. one zero-length row; TextGrid / ELAN: 2 tiers x <= 2 intervals, every tier selection, both label modes; RTTM: 2 uris x <= 2 tracks",
+    bounds=dict(quick="<= 3 CSV rows incl. one zero-length row; TextGrid / ELAN: 2 tiers x <= 2 intervals (marks: plain, empty, blank-only, padded with blanks), every tier selection, both label modes; RTTM: 2 uris x <= 2 tracks",
                 thorough="<= 4 rows, 3 tiers"),
     outside="the file formats themselves (quoting, delimiters inside fields, unicode, float text formatting) are not seen by the solver: the channel contract only "
             "holds if reader and writer get the same csv dialect parameters, which IS an obligation; in addition a concrete cross-check on the real build, run with every "
